@@ -744,6 +744,8 @@ impl FinishedSession {
         if write_guard.is_none() {
             return Ok(Some(self));
         }
+        #[cfg(nomt_verif)]
+        crate::verif::point("lin", "try_commit.locked");
 
         // A stale changeset must be rejected before its delta reaches the rollback log. The
         // write guard is held, so the root cannot change until the swap below.
@@ -885,6 +887,8 @@ impl Overlay {
         if write_guard.is_none() {
             return Ok(Some(self));
         }
+        #[cfg(nomt_verif)]
+        crate::verif::point("lin", "overlay_try_commit.locked");
 
         let marker = self.mark_committed();
 
